@@ -345,7 +345,7 @@ def check_join(case):
 
 
 SUBCHECKS = [
-    SubCheck("combine_laws", check_combine, "non-trivial: >=2 key-value pairs distributed over the copies", combine_case, quick=600, thorough=10000, max_buckets=6),
-    SubCheck("role_histories", check_roles, "identity through sign/finalize/convert, fresh objects, no aliasing, tampered signer answers refused; non-trivial: a history with a sign step and >=2 steps", roles_case, quick=350, thorough=5000, max_buckets=6),
-    SubCheck("join", check_join, "join of PSBTs of disjoint transactions keeps every input and output map; overlapping inputs refused", join_case, quick=250, thorough=3000),
+    SubCheck("combine_laws", check_combine, "non-trivial: >=2 key-value pairs distributed over the copies", combine_case, quick=1500, thorough=16000, max_buckets=6),
+    SubCheck("role_histories", check_roles, "identity through sign/finalize/convert, fresh objects, no aliasing, tampered signer answers refused; non-trivial: a history with a sign step and >=2 steps", roles_case, quick=1000, thorough=10000, max_buckets=6),
+    SubCheck("join", check_join, "join of PSBTs of disjoint transactions keeps every input and output map; overlapping inputs refused", join_case, quick=600, thorough=6000),
 ]
